@@ -183,9 +183,13 @@ CHECKS = {
         "for the behaviour-preserving rules, and refutes the pinned ones; conformance: every enumerated expression is run through the "
         "real codemods, parsed back into the algebra and compared with the transcription, and what the code produced is judged by the "
         "same evaluator (Eval_Expr.tla). The other refactoring codemods are observed: seed programs run closed before and after the "
-        "rewrite in an isolated interpreter (stdout, exception type, exit status).",
+        "rewrite in an isolated interpreter (stdout, exception type, exit status). WithScope.tla decides which extents of the `with` block "
+        "built by fix-file-resource-leak preserve behaviour over all alias / read orders (its own execution is checked against CPython) "
+        "and the real block is measured against it; SqlParam.tla transcribes the piece-level parameter extraction of "
+        "sql-parameterization against a grammar-level reference, every query is rendered in four Python forms, rewritten and executed on "
+        "sqlite3 before and after.",
         design_ref="DESIGN.md §5 C08",
-        note="Trusted: TLC, harness/expr.py (rendering / parsing between Python and the algebra), the execution sandbox. Four known "
+        note="Trusted: TLC, harness/expr.py (rendering / parsing between Python and the algebra), the execution sandbox, sqlite3. Six known "
         "findings (behaviour pinned by the repository's own tests).",
         technique="TLC model checking of transcribed rewrite rules + spec-to-code conformance replay; differential execution for the rest",
         engine="tlc-gen+trace",
